@@ -24,7 +24,9 @@ PASSWORDS = {
     "looks-like-command": ("PASS Xq USER", "PASS Xr USER"),
 }
 SPELLINGS = ["PASS", "pass", "PaSs", "pAsS"]
-OUTCOMES = ["accepted", "rejected", "out-of-sequence", "after-login", "over-limit", "abandoned"]
+OUTCOMES = ["accepted", "rejected", "out-of-sequence", "after-login", "over-limit", "abandoned", "unsendable"]
+# "unsendable": the client cannot deliver the PASS line - its encoding cannot express the password, or the connection is reset
+# between the 331 and the write
 # "abandoned": the account check itself takes time (a user manager that awaits, as one backed by a database would) and the
 # connection ends - QUIT pipelined behind PASS, reset, server shutdown, idle timeout - while the password is being checked
 # what happens right after the PASS exchange: nothing special, or an error path of the dispatcher
@@ -70,7 +72,7 @@ def one_run(args):
             await c0.connect("127.0.0.1", W.CTL_PORT)
             await c0.login("u1", pw)
             simnet.CUR_SESSION.set(1)
-        c = factory()
+        c = factory(encoding="ascii") if outcome == "unsendable" and after != "reset" else factory()
         await c.connect("127.0.0.1", W.CTL_PORT)
         if outcome == "abandoned":
             gate = asyncio.Event()
@@ -106,6 +108,21 @@ def one_run(args):
             await asyncio.sleep(1)
             observed["o"] = "abandoned"
             sent["n"] = len(pw.rstrip())
+            return True
+        if outcome == "unsendable":
+            eff = pw if after == "reset" else pw + "\u00e9\u4e2d"
+            c2 = c
+            code, _ = await c2.command("USER u1", ("2xx", "3xx", "5xx"))
+            if after == "reset":
+                w.net.conns[-1].srv.abort()
+                for _ in range(5):
+                    await asyncio.sleep(0)
+            try:
+                await c2.command("PASS " + eff, ("2xx", "5xx"), censor_after=5)
+                observed["o"] = "sent"
+            except (OSError, UnicodeError):
+                observed["o"] = "unsendable"
+            sent["n"] = len(eff)
             return True
         if via_client:
             try:
@@ -175,7 +192,9 @@ def one_run(args):
         for m in re.finditer(r"\*{2,}|(?<=[A-Za-z] )\*(?!\S)", msg.replace(pw, "")):
             stars.append(len(m.group(0)))
         recs.append({"logger": name, "toks": toks, "stars": stars})
-    return {"crash": None, "records": recs, "msgs": [[n, m] for n, m in cap.records], "observed": observed.get("o", "none"),
+    # (peer port numbers carry nothing; with two connections in a run the order in which they are torn down at the end is not fixed)
+    norm = lambda m: re.sub(r"(127\.0\.0\.1|::1)[: ]\d{4,5}", r"\1:<port>", m)
+    return {"crash": None, "records": recs, "msgs": [[n, norm(m)] for n, m in cap.records], "observed": observed.get("o", "none"),
             "sentlen": sent.get("n", 0)}
 
 
@@ -188,6 +207,10 @@ def run(tier, seed):
             # through the real client (spelling is the client's own) and on the raw wire with every spelling
             for after in AFTER:
                 if after != "pwd-quit" and tier == "quick" and rng.random() < 0.5:
+                    continue
+                if outcome == "unsendable":
+                    if after in ("reset", "pwd-quit"):
+                        plan.append((cls, pw, twin, "PASS", outcome, True, after))
                     continue
                 if outcome not in ("out-of-sequence", "abandoned"):
                     plan.append((cls, pw, twin, "PASS", outcome, True, after))
